@@ -3,6 +3,8 @@ import IbicusModel.Lemmas.GenDebiasers
 import IbicusModel.Lemmas.GenIsimipFreq
 import IbicusModel.Lemmas.GenIsimipVars
 import IbicusModel.Lemmas.GenIsimipSteps
+import IbicusModel.Lemmas.GenIsimipSteps2
+import IbicusModel.Lemmas.GenDebWinSdm
 -- property theorems
 #print axioms Props.C10.step5_bounded_in_range
 #print axioms Props.C10.step5_in_range
@@ -88,3 +90,29 @@ import IbicusModel.Lemmas.GenIsimipSteps
 #print axioms Lemmas.GenIsimipSteps.randomize_lower_eq
 #print axioms Lemmas.GenIsimipSteps.randomize_upper_eq
 #print axioms Lemmas.GenIsimipSteps.remove_trend_eq
+-- tier A (ISIMIP step 1 / step 8, rsds): scaling by the annual cycle of upper bounds regenerated from `_isimip.py` = model
+#print axioms Lemmas.GenIsimipSteps2.mapM_zip_mul
+#print axioms Lemmas.GenIsimipSteps2.getIdx_pred
+#print axioms Lemmas.GenIsimipSteps2.getIdx_selectWhere_first
+#print axioms Lemmas.GenIsimipSteps2.lookup_eq
+#print axioms Lemmas.GenIsimipSteps2.scale_by_annual_cycle_of_upper_bounds_eq
+#print axioms Lemmas.GenIsimipSteps2.rescale_by_annual_cycle_of_upper_bounds_eq
+#print axioms Lemmas.GenIsimipSteps2.step8_eq
+#print axioms Lemmas.GenIsimipSteps2.enumAssignFrom_pointwise
+#print axioms Lemmas.GenIsimipSteps2.calculate_debiased_annual_cycle_of_upper_bounds_eq
+#print axioms Lemmas.GenIsimipSteps2.get_annual_cycle_of_upper_bounds_eq_partial
+-- tier A (DebWin): the dataflow of SDM relative / CDFt SSR regenerated from /repo (Gen.DebWin) = expected program, and its denotation = Model.Debiasers
+#print axioms Lemmas.GenDebWin.gen_sdm_apply_on_window_relative_sdm
+#print axioms Lemmas.GenDebWin.gen_cdft_apply_debiasing_steps
+#print axioms Lemmas.GenDebWinSdm.runBinds_append
+#print axioms Lemmas.GenDebWinSdm.sdm_rel_core
+#print axioms Lemmas.GenDebWinSdm.expected_int
+#print axioms Lemmas.GenDebWinSdm.sdmRelExpected_le
+#print axioms Lemmas.GenDebWinSdm.sdm_relative_denote
+#print axioms Lemmas.GenDebWinSdm.sdm_relative_denote_raises
+#print axioms Lemmas.GenDebWinSdm.sdm_relative_denote_ok
+#print axioms Lemmas.GenDebWinSdm.sdm_relative_no_hidden_raise
+#print axioms Lemmas.GenDebWinSdm.cdft_steps_denote_single
+#print axioms Lemmas.GenDebWinSdm.cdft_steps_denote_methods_single
+#print axioms Lemmas.GenIsimipSteps2.step1_eq_partial
+#print axioms Lemmas.GenIsimipSteps2.step8_wiring_eq
